@@ -831,6 +831,11 @@ class EvolvedMF:
                 As = Ns / Pk(alpha, 1, *bins_MS)
                 Ms = As * Pk(alpha, 2, *bins_MS)
 
+                # A turn-off bin truncated to (numerically) zero width, i.e.
+                # when mto ~ bin edge, holds stars of its lower-edge mass
+                thin = np.isnan(As)
+                Ms[thin] = Ns[thin] * bins_MS.lower[thin]
+
                 # ----------------------------------------------------------
                 # Eject BHs, first through natal kicks, then dynamically
                 # ----------------------------------------------------------
@@ -1205,6 +1210,11 @@ class EvolvedMFWithBH(EvolvedMF):
 
                 As = Ns / Pk(alpha, 1, *bins_MS)
                 Ms = As * Pk(alpha, 2, *bins_MS)
+
+                # A turn-off bin truncated to (numerically) zero width, i.e.
+                # when mto ~ bin edge, holds stars of its lower-edge mass
+                thin = np.isnan(As)
+                Ms[thin] = Ns[thin] * bins_MS.lower[thin]
 
                 # ----------------------------------------------------------
                 # Eject BHs, first through natal kicks, then dynamically
